@@ -551,3 +551,7 @@ MUTATIONS += [
     dict(id="C12-copy-subtrees-not-collected", prop="C12", file=CPYF2, old="                NodeType::Dir => {\n                    tree_ids.extend(node.subtree.into_iter().filter(filter_tree));\n                }", new="                NodeType::Dir => {}"),
     dict(id="C12-copy-symlinks-treated-as-files-only", prop="C12", file=CPYF2, old="                NodeType::File => {\n                    data_ids.extend(node.content.into_iter().flatten().filter(filter_data));", new="                NodeType::Symlink { .. } => {\n                    data_ids.extend(node.content.into_iter().flatten().filter(filter_data));"),
 ]
+
+MUTATIONS += [
+    dict(id="C16-prune-warmup-only-instant", prop="C16", file=PR, old="    repo.warm_up_wait(prune_plan.repack_packs().into_iter())?;\n", new="    if opts.instant_delete {\n        repo.warm_up_wait(prune_plan.repack_packs().into_iter())?;\n    }\n"),
+]
